@@ -7,7 +7,7 @@ import math
 
 from types import SimpleNamespace
 
-from vf.combi import ORD_LABELS, digits, fresh, unlabel
+from vf.combi import ANY_LABELS, ORD_LABELS, digits, fresh, unlabel
 from vf.guard import call as gcall, too_many_hangs
 from vf.core import Job, new_result, viol
 from vf.guard import guarded
@@ -93,12 +93,16 @@ def und_edges(nodes, adj):
 # ------------------------------------------------------------------------------------ structural part
 
 
-def labelled_call(fn, nodes, adj, *extra, **kw):
-    """the same call over orderable tuple labels, a fresh (equal, not identical) object at every use; the answer is
-    translated back to node numbers"""
-    lab = lambda x: fresh(ORD_LABELS[x])  # noqa: E731
-    inv = {ORD_LABELS[x]: x for x in range(len(adj))}
-    res = fn([lab(x) for x in nodes], lambda v: [lab(w) for w in adj[inv[v]]], *extra, **kw)
+def labelled_call(fn, nodes, adj, *extra, labels=None, oneshot=False, **kw):
+    """the same call over orderable tuple labels (or the given label list), a fresh (equal, not identical) object at every
+    use; the answer is translated back to node numbers"""
+    L = labels or ORD_LABELS
+    lab = lambda x: fresh(L[x])  # noqa: E731
+    inv = {L[x]: x for x in range(len(adj))}
+    if oneshot:  # node collection and neighbour answers as one-shot iterables (generators): legal Iterable[S] values
+        res = fn((lab(x) for x in nodes), lambda v: (lab(w) for w in adj[inv[v]]), *extra, **kw)
+    else:
+        res = fn([lab(x) for x in nodes], lambda v: [lab(w) for w in adj[inv[v]]], *extra, **kw)
     return SimpleNamespace(status=res.status, objective=res.objective, solution=unlabel(res.solution, inv))
 
 
@@ -111,11 +115,11 @@ def run_structural(r, universe_n, adj, declared, kcore_too=True, labelled=False)
     nb = lambda v: adj[v]  # noqa: E731
     wit = {"adj": [list(a) for a in adj], "nodes": nodes}
     if labelled:
-        wit["labelled"] = True
+        wit["labelled"] = labelled
 
     def call(fn, *extra):
         if labelled:
-            return lambda: labelled_call(fn, nodes, adj, *extra)
+            return lambda: labelled_call(fn, nodes, adj, *extra, labels=ANY_LABELS if labelled == "any" else None, oneshot=labelled == "oneshot")
         return lambda: fn(list(nodes), nb, *extra)
     # removing a vertex: count components among the remaining vertices; v is a cut vertex iff that count exceeds
     # (components before) minus (1 if v was isolated else 0)
@@ -169,7 +173,8 @@ def run_structural(r, universe_n, adj, declared, kcore_too=True, labelled=False)
         return errs, "max%d" % (max(want_core.values()) if want_core else 0)
 
     rec("articulation_points", call(articulation_points), j_ap)
-    rec("bridges", call(bridges), j_br)
+    if labelled != "any":  # bridges are reported as (min, max): the labels must be orderable
+        rec("bridges", call(bridges), j_br)
     if kcore_too:
         rec("kcore_decomposition", call(kcore_decomposition), j_core)
         for k in range(0, len(nodes) + 1):
@@ -210,6 +215,9 @@ def _simple_chunk(params, lo, hi):
         run_structural(r, n, adj, perms[pi], kcore_too=(desc == 0))
         if desc == 0 and pi == len(perms) - 1:
             run_structural(r, n, adj, perms[pi], labelled=True)
+            run_structural(r, n, adj, perms[pi], labelled="oneshot")
+        if desc == 0 and pi in (0, len(perms) - 1):
+            run_structural(r, n, adj, perms[pi], labelled="any")  # unordered labels incl. None: first and last node order
         if len(r["violations"]) >= 40 or too_many_hangs():
             r["capped"] = True
             break
@@ -296,6 +304,74 @@ def _large_chunk(params, lo, hi):
     return r
 
 
+def deep_graphs():
+    """graphs far beyond the interpreter's recursion depth / with hundreds of blocks, answers known in closed form:
+    (name, symmetric adjacency lists, cut vertices, bridges, core number per node)"""
+    out = []
+    n = 3000
+    out.append(("path3000", [[j for j in (i - 1, i + 1) if 0 <= j < n] for i in range(n)], set(range(1, n - 1)), {(i, i + 1) for i in range(n - 1)}, [1] * n))
+    # 130 bow-ties (two triangles sharing the node c), bow-tie i joined to bow-tie i+1 by one edge b2_i - a1_{i+1}
+    B = 130
+    adj = [[] for _ in range(5 * B)]
+
+    def link(u, v):
+        adj[u].append(v)
+        adj[v].append(u)
+
+    ap, br = set(), set()
+    for i in range(B):
+        c, a1, a2, b1, b2 = range(5 * i, 5 * i + 5)
+        for u, v in ((c, a1), (c, a2), (a1, a2), (c, b1), (c, b2), (b1, b2)):
+            link(u, v)
+        ap.add(c)
+        if i + 1 < B:
+            link(b2, 5 * (i + 1) + 1)
+            ap.update((b2, 5 * (i + 1) + 1))
+            br.add((b2, 5 * (i + 1) + 1))
+    out.append(("bowtie_chain_650", [sorted(a) for a in adj], ap, br, [2] * (5 * B)))
+    # a cycle of 1500 nodes with a tail of 1000 nodes hanging off node 0
+    C, T = 1500, 1000
+    adj = [[(i - 1) % C, (i + 1) % C] for i in range(C)] + [[] for _ in range(T)]
+    prev = 0
+    for x in range(C, C + T):
+        adj[prev].append(x)
+        adj[x].append(prev)
+        prev = x
+    out.append(("cycle1500_tail1000", adj, {0} | set(range(C, C + T - 1)), {(0, C)} | {(x, x + 1) for x in range(C, C + T - 1)}, [2] * C + [1] * T))
+    return out
+
+
+def _deep_chunk(params, lo, hi):
+    from solvor.articulation import articulation_points, bridges
+    from solvor.kcore import kcore_decomposition
+
+    gs = deep_graphs()
+    r = new_result()
+    for idx in range(lo, hi):
+        name, adj, want_ap, want_br, want_core = gs[idx // 2]
+        n = len(adj)
+        order = list(range(n)) if idx % 2 == 0 else list(range(n - 1, -1, -1))
+        wit = {"deep": name, "reversed": idx % 2 == 1}
+        for fname, fn, ok in (
+            ("articulation_points", articulation_points, lambda res: set(res.solution) == want_ap),
+            ("bridges", bridges, lambda res: len(res.solution) == len(want_br) and {(min(e), max(e)) for e in res.solution} == want_br),
+            ("kcore_decomposition", kcore_decomposition, lambda res: dict(res.solution) == {v: want_core[v] for v in range(n)}),
+        ):
+            r["n"] += 1
+            r["nontrivial"] += 1
+            try:
+                res = gcall(lambda: fn(list(order), lambda v: adj[v]))
+            except Exception as ex:  # noqa: BLE001
+                r["outcomes"][f"deep:{fname}:raised"] += 1
+                r["violations"].append(viol(fname, "raised", dict(wit, function=fname), f"{fname} on {name} ({n} nodes, {'descending' if idx % 2 else 'ascending'} node order): {type(ex).__name__}: {str(ex)[:120]}"))
+                continue
+            good = ok(res)
+            r["outcomes"][f"deep:{fname}:{'ok' if good else 'wrong'}"] += 1
+            if not good:
+                r["violations"].append(viol(fname, "wrong_on_deep_graph", dict(wit, function=fname), f"{fname} on {name} ({n} nodes, {'descending' if idx % 2 else 'ascending'} node order): answer of size {len(res.solution)} differs from the closed form"))
+    return r
+
+
 def _asym_chunk(params, lo, hi):
     """n=4: each of the 6 pairs in {absent, listed by u, listed by v, listed by both} x all node orders"""
     n = params
@@ -370,7 +446,7 @@ def judge_pagerank(nodes, adj, damping, max_iter=100, tol=1e-6, edges_variant=Fa
             el = [(u, v) for u in nodes for v in adj[u]]
             res = gcall(lambda: pagerank_edges(n, el, damping=damping, max_iter=max_iter, tol=tol, backend="python"))
         elif labelled:
-            res = gcall(lambda: labelled_call(pagerank, nodes, adj, damping=damping, max_iter=max_iter, tol=tol))
+            res = gcall(lambda: labelled_call(pagerank, nodes, adj, damping=damping, max_iter=max_iter, tol=tol, oneshot=labelled == "oneshot"))
         else:
             res = gcall(lambda: pagerank(list(nodes), lambda v: adj[v], damping=damping, max_iter=max_iter, tol=tol))
     except Exception as ex:  # noqa: BLE001
@@ -395,7 +471,21 @@ def judge_pagerank(nodes, adj, damping, max_iter=100, tol=1e-6, edges_variant=Fa
                     s += p[u] * out[u].count(v) / len(out[u])
             rhs = (1 - damping) / n + damping * (s + dang / n)
             worst = max(worst, abs(p[v] - rhs))
-        if worst > n * tol + 1e-12:
+        slack = 1e-12
+        if tol < 1e-9:
+            # tight tolerances: residual of the returned floats in exact arithmetic, so that only the solver's own rounding
+            # (a few ulp of numbers <= 1 per node) needs slack
+            from fractions import Fraction as Fr
+
+            fp = {u: Fr(p[u]) for u in nodes}
+            fd = Fr(damping)
+            fdang = sum(fp[u] for u in nodes if not out[u])
+            worst = 0.0
+            for v in nodes:
+                fs = sum((fp[u] * out[u].count(v) / len(out[u]) for u in nodes if out[u]), Fr(0))
+                worst = max(worst, abs(float(fp[v] - ((1 - fd) / n + fd * (fs + fdang / n)))))
+            slack = 4e-15
+        if worst > n * tol + slack:
             errs.append(("equation_residual", f"damped PageRank equation violated by {worst:.3g} > n*tol = {n * tol:.3g} with status OPTIMAL; scores {p}"))
     elif res.status != Status.MAX_ITER:
         errs.append(("status", f"status {res.status.name}"))
@@ -416,17 +506,49 @@ def _pr_chunk(params, lo, hi):
         for b, (u, v) in enumerate(slots):
             if code >> b & 1:
                 adj[u].append(v)
-        for ev in (False, True, "labelled") if idx % 3 == 2 else (False, True):
-            errs, label, nt = judge_pagerank(list(range(n)), adj, d, edges_variant=ev is True, labelled=ev == "labelled")
+        for ev in (False, True, "labelled") if idx % 3 == 2 else (False, True, "oneshot") if idx % 3 == 1 else (False, True):
+            errs, label, nt = judge_pagerank(list(range(n)), adj, d, edges_variant=ev is True, labelled=ev if ev in ("labelled", "oneshot") else False)
             r["n"] += 1
             r["outcomes"]["pagerank:" + label] += 1
             if nt:
                 r["nontrivial"] += 1
-            wit = {"n": n, "adj": adj, "damping": d, "edges_variant": ev is True, "labelled": ev == "labelled"}
+            wit = {"n": n, "adj": adj, "damping": d, "edges_variant": ev is True, "labelled": ev if ev in ("labelled", "oneshot") else False}
             for kind, detail in errs:
-                r["violations"].append(viol("pagerank", kind, wit, f"pagerank{'_edges' if ev is True else ''}(adj={adj}, damping={d}{', tuple labels' if ev == 'labelled' else ''}): {detail}"))
+                r["violations"].append(viol("pagerank", kind, wit, f"pagerank{'_edges' if ev is True else ''}(adj={adj}, damping={d}{', tuple labels' if ev == 'labelled' else ', one-shot iterables' if ev == 'oneshot' else ''}): {detail}"))
         if not r["samples"]:
             r["samples"].append({"function": "pagerank", "adj": adj, "damping": d})
+        if len(r["violations"]) >= 40 or too_many_hangs():
+            r["capped"] = True
+            break
+    return r
+
+
+PR_TOLS = (1e-2, 1e-4, 1e-9, 1e-13, 1e-15)
+
+
+def _pr_tol_chunk(params, lo, hi):
+    """index = (graph_code*3 + damping)*len(PR_TOLS) + tol ; all digraphs incl. self loops on n nodes, generous max_iter"""
+    n = params
+    slots = [(u, v) for u in range(n) for v in range(n)]
+    damp = (0.15, 0.5, 0.85)
+    r = new_result()
+    for idx in range(lo, hi):
+        tol = PR_TOLS[idx % len(PR_TOLS)]
+        k = idx // len(PR_TOLS)
+        d = damp[k % 3]
+        code = k // 3
+        adj = [[] for _ in range(n)]
+        for b, (u, v) in enumerate(slots):
+            if code >> b & 1:
+                adj[u].append(v)
+        errs, label, nt = judge_pagerank(list(range(n)), adj, d, max_iter=20000, tol=tol)
+        r["n"] += 1
+        r["outcomes"][f"pagerank:tol{tol:g}:" + label] += 1
+        if nt:
+            r["nontrivial"] += 1
+        wit = {"n": n, "adj": adj, "damping": d, "tol": tol, "max_iter": 20000}
+        for kind, detail in errs:
+            r["violations"].append(viol("pagerank", kind, wit, f"pagerank(adj={adj}, damping={d}, tol={tol}, max_iter=20000): {detail}"))
         if len(r["violations"]) >= 40 or too_many_hangs():
             r["capped"] = True
             break
@@ -467,7 +589,7 @@ def judge_louvain(nodes, adj, resolution, labelled=False):
     def run():
         try:
             if labelled:
-                return labelled_call(louvain, nodes, adj, resolution=resolution), None
+                return labelled_call(louvain, nodes, adj, resolution=resolution, oneshot=labelled == "oneshot"), None
             return louvain(list(nodes), lambda v: adj[v], resolution=resolution), None
         except Exception as ex:  # noqa: BLE001
             return None, f"{type(ex).__name__}: {ex}"
@@ -524,6 +646,8 @@ def _louvain_chunk(params, lo, hi):
                 if code % 2 == 0:
                     adj[v].append(u)
         lb = pi == len(perms) - 1 and idx % 3 == 1  # one order, default resolution: tuple labels instead of numbers
+        if pi == 0 and idx % 3 == 1:
+            lb = "oneshot"  # first order, default resolution: tuple labels through one-shot iterables
         errs, label, nt = judge_louvain(perms[pi], adj, res_, labelled=lb)
         r["n"] += 1
         r["outcomes"]["louvain:" + label] += 1
@@ -600,6 +724,7 @@ def _louvain_seq_chunk(params, lo, hi):
 def jobs(tier, seed):
     js = []
     js.append(Job("large_structured", len(large_graphs()) * 2, _large_chunk, None, chunk=1, describe="path and cycle on 70 nodes, a chain of 12 triangles joined by bridges, K7 with a tail and an isolated node, 6x6 grid; two node orders; all five functions"))
+    js.append(Job("deep_closed_form", len(deep_graphs()) * 2, _deep_chunk, None, chunk=1, describe="a path of 3000 nodes, a chain of 130 bow-ties (650 nodes), a 1500-cycle with a tail of 1000: cut vertices, bridges and core numbers known in closed form; two node orders"))
     js.append(Job("structural_n7_subsets_of_declared_edges", 2 ** len(U7) * 3, _u7_chunk, None, describe=f"7 nodes, every subset of {U7}, 3 node orders"))
     js.append(Job("louvain_n4_mixed_listings", 4**6 * 2 * 3, _louvain_mixed_chunk, None, describe="each pair absent / listed by one endpoint / by the other / by both, 2 node orders x resolution {0.5,1,2}"))
     js.append(Job("louvain_n3_sequences", 40**3 * 3, _louvain_seq_chunk, None, describe="arbitrary neighbour sequences (self loops, duplicates, asymmetry) x resolution {0.5,1,2}"))
@@ -610,6 +735,7 @@ def jobs(tier, seed):
     js.append(Job("structural_outside_u4", 2**6 * len(DECL), _outside_chunk, None, describe="neighbours outside the declared node set"))
     for n in (1, 2, 3, 4):
         js.append(Job(f"pagerank_n{n}_all_digraphs", 2 ** (n * n) * 3, _pr_chunk, n, describe="all digraphs incl. self loops and dangling nodes x damping {0.15,0.5,0.85}; callback and _edges(python) variants"))
+    js.append(Job("pagerank_n3_tolerances", 2**9 * 3 * len(PR_TOLS), _pr_tol_chunk, 3, describe=f"all digraphs on 3 nodes x damping {{0.15,0.5,0.85}} x tol in {PR_TOLS} with max_iter 20000: an OPTIMAL answer must satisfy the equation to within n*tol (residual computed exactly for tol < 1e-9)"))
     js.append(Job("pagerank_n3_sequences", 40**3 * 4, _pr_seq_chunk, None, describe="duplicate edges, declared subsets, max_iter=2"))
     for n in (2, 3, 4):
         js.append(Job(f"louvain_n{n}_all_orders", 2 ** len(_pairs(n)) * math.factorial(n) * 3, _louvain_chunk, (n, "all"), describe="all graphs x all node orders x resolution {0.5,1,2}"))
@@ -627,11 +753,18 @@ def replay(v):
     f = v["function"]
     if f == "pagerank":
         nodes = w.get("nodes") or list(range(w["n"]))
-        errs, _, _ = judge_pagerank(nodes, w["adj"], w["damping"], max_iter=w.get("max_iter", 100), edges_variant=w.get("edges_variant", False), labelled=bool(w.get("labelled")))
+        errs, _, _ = judge_pagerank(nodes, w["adj"], w["damping"], max_iter=w.get("max_iter", 100), tol=w.get("tol", 1e-6), edges_variant=w.get("edges_variant", False), labelled=w.get("labelled") or False)
     elif f == "louvain":
-        errs, _, _ = judge_louvain(w["nodes"], w["adj"], w["resolution"], labelled=bool(w.get("labelled")))
+        errs, _, _ = judge_louvain(w["nodes"], w["adj"], w["resolution"], labelled=w.get("labelled") or False)
+    elif w.get("deep"):
+        i = [g[0] for g in deep_graphs()].index(w["deep"]) * 2 + (1 if w.get("reversed") else 0)
+        r = _deep_chunk(None, i, i + 1)
+        for x in r["violations"]:
+            if x["function"] == f:
+                return x
+        return None
     else:
-        run_structural(r, len(w["adj"]), w["adj"], tuple(w["nodes"]), labelled=bool(w.get("labelled")))
+        run_structural(r, len(w["adj"]), w["adj"], tuple(w["nodes"]), labelled=w.get("labelled") or False)
         for x in r["violations"]:
             if x["function"] == f:
                 return x
